@@ -1228,7 +1228,8 @@ ASSUMPTIONS = ["PY-STR", "PY-EXC", "PY-ALIAS: last_closed is None, the root, or 
                "TREE-FINITE", "lists of symbolic length are modelled as abstract prefix + appended tail; only append/pop/[-1]/len/truth are in the subset",
                "call-site obligations are syntactic shape checks (back end 'dataflow', UNDECIDED when the shape is not recognised)"]
 BOUNDED = ["replay/C17.py: native grammar search (about 1000 documents: visible blocks x removable elements x void / self-closing / "
-           "unclosed / mis-nested / nested-removable / comment / CDATA contents, through read_html, read_mhtml, msg._html_to_text and an "
+           "unclosed / mis-nested / nested-removable / comment / CDATA contents, documents html.parser refuses, unusual metadata values, "
+           "degenerate tables / lists / headings / links / images next to removed content, through read_html, read_mhtml, msg._html_to_text and an "
            "EPUB chapter) is a witness finder for refuted obligations only; it is bounded and never counted as proof"]
 
 REPLAY_UNKNOWN = True    # undecided / out-of-subset items are searched natively (replay) before being reported UNDECIDED
